@@ -633,6 +633,26 @@ pub fn analyze(m: &Mon, sc: &Scenario, info: &PlanInfo, out: &ExecOut, twin: Opt
         }
     }
 
+    if m.c04 && expecting_panic && sc.script.is_none() && sc.mode != Mode::Async {
+        // exactly once per dispatch also holds for every dispatch that returns normally AFTER a dispatch
+        // that ended in a (caught) panic
+        for (di, r) in out.results.iter().enumerate().skip(1) {
+            if r.is_some() {
+                continue;
+            }
+            let d = di as u16 + 1;
+            let tl = if sc.mode == Mode::Dispatch { 1 } else { 0 };
+            for n in &info.nodes {
+                let exp = expected_runs(info, n.id, 1, tl) as usize;
+                let ran = log.iter().filter(|e| e.dispatch == d && is_begin(info, e) && e.sys as usize == n.id).count();
+                if ran != exp {
+                    let sig = if ran < exp { "system-skipped-after-contained-panic" } else { "system-ran-too-often-after-contained-panic" };
+                    vs.push(v("C04", sig, format!("dispatch {} (after a dispatch that ended in a caught panic) ran system {} {} times, expected {}", d, n.id, ran, exp)));
+                }
+            }
+        }
+    }
+
     if m.c04 && !expecting_panic && out.results.iter().all(|r| r.is_none()) {
         let k = sc.dispatches as u32;
         let tl = if matches!(sc.mode, Mode::Dispatch | Mode::Async) { k } else { 0 };
